@@ -1172,7 +1172,11 @@ def run_case(case, drv):
             except Exception:
                 tags.append("perturbation-refused:" + field)
                 continue
-            if m2.to_dict() == d_model and m2.dataset.equals(m.dataset):
+            try:
+                noop = bool(m2 == m) and m2.dataset.equals(m.dataset)     # pharmpy's own equality, not the dict
+            except Exception:
+                noop = False
+            if noop:
                 tags.append("perturbation-noop:" + field)
                 continue
             tags.append("perturb:" + field)
@@ -1216,17 +1220,9 @@ def run_procs_case(case):
     worker_mon, tags = [], ["kind=procs"]
     specs = case["specs"]
     outs = run_children(specs)
-    # the parent (this process) as a fifth observer
-    here = []
-    for s in specs:
-        try:
-            m, _ = build_model(s)
-            here.append(child_payload(m))
-        except Exception as e:
-            here.append({"error": type(e).__name__})
+    # (the parent process is not an observer: its PYTHONHASHSEED is not fixed, the verdict must be reproducible)
     for i, s in enumerate(specs):
         obs = {hs: outs[hs][i] for hs in HASHSEEDS}
-        obs["parent"] = here[i]
         if any("error" in o for o in obs.values()):
             if not all("error" in o for o in obs.values()):
                 worker_mon.append({"cls": "build-differs-across-processes", "what": f"spec #{i} builds in some interpreters only: "
